@@ -63,7 +63,10 @@ CHECKS = {
         design="DESIGN.md section 6 C05", technique="machine-checked proof (Rocq): invariants + refinement; lock-step on emitted tables; differential event streams"),
     "C08": dict(
         text="Rocq: laws of the stream machine for yyless / yyunput / yyinput (C08_less_law, C08_less_keeps_all_bytes, "
-             "C08_unput_next_read, C08_input_returns_next, C08_input_end_value_only_at_end). The machine (extracted) is the oracle: "
+             "C08_unput_next_read, C08_input_returns_next, C08_input_end_value_only_at_end) and C08_bytes_conserved (coq/Conservation.v): "
+             "in EVERY reachable state of a run that keeps yytext defined where it is used (no yyunput; each yyless gives back only bytes "
+             "of the token just matched and precedes any yyinput of its action) consumed ++ unread = the concatenation of all sources - "
+             "each input byte is consumed exactly once and in order, across refills, yywrap, yymore, yyless, yyinput. The machine (extracted) is the oracle: "
              "compiled scanners (4 back ends, %pointer/%array, small buffers, several sources) running generated action programs are "
              "compared event by event (rule, yyleng, hash of yytext, yyinput values). Partial: the buffer-layout refinement (R4b/R6 "
              "concrete) is not proved, the tie of the C code to the machine is differential.",
